@@ -1,0 +1,13 @@
+//go:build verif
+
+package websocket
+
+import "github.com/talostrading/sonic"
+
+// VerifAttach puts the stream in StateActive on top of the given transport, skipping the opening
+// handshake. It does what the in-package tests do by hand (`ws.state = StateActive; ws.init(mock)`).
+// Only compiled with the `verif` build tag; used by the verification harness under /verif.
+func (s *Stream) VerifAttach(transport sonic.Stream) error {
+	s.state = StateActive
+	return s.init(transport)
+}
